@@ -143,8 +143,23 @@ def segments(ctx: Ctx, q, e, san=frozenset(), depth=0, quoters=frozenset()):
         if name == "str" and len(e.args) == 1:
             return segments(ctx, q, e.args[0], san, depth + 1, quoters)
         if name == "escape" and e.args:
+            # which escape?  html.escape quotes by default; xml.sax.saxutils.escape and cgi.escape do not
+            r = ctx.p.resolve_dotted(fi.module, e.func) if dotted(e.func) else None
+            origin = r[1] if r and r[0] == "ext" else ""
             quote_off = any(k.arg == "quote" and isinstance(k.value, ast.Constant) and k.value.value is False for k in e.keywords)
-            return segments(ctx, q, e.args[0], set(san) | ({"html-text"} if quote_off else {"html-text", "html-attr"}), depth + 1, quoters)
+            quote_on = any(k.arg == "quote" and isinstance(k.value, ast.Constant) and k.value.value is True for k in e.keywords)
+            if origin in ("html.escape",):
+                gives = {"html-text"} if quote_off else {"html-text", "html-attr"}
+            elif origin in ("xml.sax.saxutils.escape",):
+                ents = e.args[1] if len(e.args) > 1 else next((k.value for k in e.keywords if k.arg == "entities"), None)
+                gives = {"html-text", "html-attr"} if ents is not None and '"' in norm(ents) else {"html-text"}
+            elif origin in ("cgi.escape",):
+                gives = {"html-text", "html-attr"} if quote_on else {"html-text"}
+            elif origin in ("xml.sax.saxutils.quoteattr",):
+                gives = {"html-text", "html-attr"}
+            else:
+                gives = set()  # an unknown function that happens to be called escape sanitises nothing we can rely on
+            return segments(ctx, q, e.args[0], set(san) | gives, depth + 1, quoters)
         if name in quoters and e.args:
             return [Seg("const", '"')] + segments(ctx, q, e.args[0], set(san) | {"dotq"}, depth + 1, quoters) + [Seg("const", '"')]
         if name == "isoformat":
@@ -404,6 +419,9 @@ def c15_r4(ctx: Ctx, rule):
                         lp = loop_partition(bq, nm)
                         if lp:
                             dec = lp
+            for x in ast.walk(n.value):
+                if dec is None and isinstance(x, ast.Attribute) and "attributes" in x.attr and isinstance(x.value, ast.Name):
+                    dec = (x.attr, "<property %s>" % x.attr, x)
     if pa is None or dec is None:
         raise AnalysisError("cannot extract the attribute partitions of the DOT annotation logic")
     same = pa[0] == dec[0] and pa[1] == dec[1]
